@@ -1405,23 +1405,6 @@ fn calls_of(n: usize, t: usize) -> Vec<usize> {
 	}
 	v
 }
-fn segs_text(segs: &[Seg]) -> String {
-	segs.iter()
-		.map(|(sr, c)| {
-			let n: usize = c.iter().sum();
-			let same = c.len() > 1 && c[..c.len() - 1].iter().all(|x| *x == c[0]);
-			if same {
-				format!("{} frames at {} Hz in calls of {} (+ a last one of {})", n, sr, c[0], c[c.len() - 1])
-			} else if c.len() <= 8 {
-				format!("{} frames at {} Hz in calls of {:?}", n, sr, c)
-			} else {
-				format!("{} frames at {} Hz in {} calls of {:?}...", n, sr, c.len(), &c[..8])
-			}
-		})
-		.collect::<Vec<_>>()
-		.join("; on_change_sample_rate; ")
-}
-
 /// the bare effect through a history: init(first rate, t), process calls of the given sizes with dt = 1/rate,
 /// on_change_sample_rate between the segments
 fn run_history(cx: &Ctx, d: &Desc, t: usize, segs: &[Seg], signal: &[Frame]) -> Outcome<Vec<Frame>> {
